@@ -542,12 +542,21 @@ pub fn emit_fn(owner: Option<&str>, name: &str, mut f: syn::ItemFn, contracts: &
     }
 
     // statements
+    let mut skipped_stmt: Vec<usize> = vec![];
     for (i, p) in poss.iter().enumerate() {
         if let Pos::After { text, nth, before } = p {
             let mut sm = StmtMarker { text: text.clone(), nth: *nth, before: *before, marker: format!("vx_m_stmt_{}", i), seen: 0, done: false };
             sm.visit_block_mut(&mut f.block);
             if !sm.done {
-                lost(&format!("{}: statement selector \"{}\" #{} not found", name, text, nth));
+                // a hint whose anchor statement no longer exists: in lenient mode (second attempt of the runner) the hint is dropped and
+                // the verifier decides without it; a contract clause (signature, loop invariant) is never dropped
+                if ctx.opts["lenient_hints"].as_bool().unwrap_or(false) {
+                    eprintln!("vx: HINT-DROPPED: {}: statement selector \"{}\" #{}", name, text, nth);
+                    skipped_stmt.push(i);
+                    blocks[i].used = true;
+                } else {
+                    lost(&format!("{}: statement selector \"{}\" #{} not found", name, text, nth));
+                }
             }
         }
     }
@@ -693,6 +702,7 @@ pub fn emit_fn(owner: Option<&str>, name: &str, mut f: syn::ItemFn, contracts: &
         for (i, p) in poss.iter().enumerate() {
             match p {
                 Pos::After { .. } => {
+                    if skipped_stmt.contains(&i) { continue; }
                     let m = format!("vx_m_stmt_{}!();", i);
                     let j = printed.find(&m).unwrap_or_else(|| lost("stmt marker lost"));
                     printed = format!("{}{}{}", &printed[..j], blocks[i].body, &printed[j + m.len()..]);
